@@ -522,7 +522,7 @@ func Explore(p *Program, cfg *HarnessCfg) *Result {
 		cfg.Opts.MaxSteps = 2_000_000
 	}
 	if cfg.Opts.MaxDepth == 0 {
-		cfg.Opts.MaxDepth = 400
+		cfg.Opts.MaxDepth = 4000
 	}
 	if cfg.Opts.MaxSymLen == 0 {
 		cfg.Opts.MaxSymLen = 16
